@@ -184,8 +184,8 @@ func GenHistoryFamily(w *Writer, r *Rng, t Tier) error {
 				problem = fmt.Sprintf("repeating %q from node %d gave %s, earlier %s", c.xp, start, impl, prev)
 			}
 			firstResult[key] = impl
-			w.Line(fmt.Sprintf("eval %s %s %d %s", doc.Id, env.Sexp(), start, Sexp(c.e)), impl,
-				map[string]interface{}{"k": "eval", "fam": "history", "doc": doc.Id, "start": start, "xpath": c.xp, "env": env})
+			// (what each call returns is judged by the properties about evaluation; C13 judges only that
+			// nothing is mutated and that repeats agree)
 			check(fmt.Sprintf("step %d: %q from node %d", s, c.xp, start))
 			if s%5 == 4 {
 				// Unmarshal on the shared result
